@@ -54,7 +54,7 @@ def g_shared_callable(prop, bound):
 
 def g_merge_laws(prop, bound, bound3, sample3=None, seed=0):
     shs = harness.shapes(*bound)
-    T = [dict(shapes_=[s], mode=m) for s in shs for m in ('unary', 'idem', 'neutral_l', 'neutral_r', 'roundtrip', 'roundtrip_sources')]
+    T = [dict(shapes_=[s], mode=m) for s in shs for m in ('unary', 'idem', 'neutral_l', 'neutral_r', 'roundtrip', 'roundtrip_sources', 'roundtrip_given_sources')]
     combos, ex = _combos(bound3, 3, sample3, seed)
     T += [dict(shapes_=list(c), mode='foldlaw') for c in combos]
     return dict(name='merge laws', bound=bound_text(bound) + '; fold law on triples with ' + bound_text(bound3) + ('' if ex else ' (%d triples drawn with VERIF_SEED)' % len(combos)),
@@ -108,7 +108,7 @@ def g_retrieval(prop):
                 T.append(dict(mode='fwd', variant=dict(both_calls_same_callee=same, written_as_functools_partial_0=part,
                                                        two_values_already_in_star_args=two, one_value_already_in_star_args=one)))
     T += [dict(mode='af_ast'), dict(mode='as_forged'), dict(mode='sphinx'), dict(mode='recursion'),
-          dict(mode='fwd_method'), dict(mode='fwd_super'), dict(mode='spec_forwards'), dict(mode='af_partial')]
+          dict(mode='fwd_method'), dict(mode='fwd_super'), dict(mode='spec_forwards'), dict(mode='af_partial'), dict(mode='af_method')]
     return dict(name='retrieval', bound='none (tier P): the inspected object is symbolic - presence of every attribute the units touch in the '
                 'instance dict / on the type, every external outcome (inspect.signature, getsource, ast.parse, forger, hint, descriptors) '
                 'and every exception class are solver variables; kinds of object: function, callable instance; class of the parsed node enumerated',
@@ -213,6 +213,7 @@ def g_wrappers(prop, q):
             T.append(dict(mode='wrappers', cls=c, depth=d))
     T.append(dict(mode='forger', cls='_Wrapped'))
     T.append(dict(mode='forger_wrapper'))
+    T.append(dict(mode='safe_get'))
     for nf in (1, 2, 3):
         for na in (0, 1):
             T.append(dict(mode='combination', nfuncs=nf, nargs=na, nkeys=1))
@@ -266,6 +267,10 @@ def plan(prop, tier, seed=0):
             G += [g_merge_bare(prop, (1, 1, 1, 2))]
         if prop == 'C16':
             G += [g_partial(prop, (1, 1, 1, 2), 0, 'stored')]
+            g = g_merge_laws(prop, (1, 1, 1, 2) if q else B1, (0, 0, 0, 0), 0, seed)
+            g['tasks'] = [t for t in g['tasks'] if t['args']['mode'].startswith('roundtrip')]
+            g['name'] = 'sort_params / apply_params round trips'
+            G += [g]
         if prop in ('C08', 'C16'):
             G += [g_shared_callable(prop, (0, 1, 1, 1) if q else (1, 1, 1, 2))]
         G += [g_merge(prop, BX, 2), g_merge(prop, B3, 3, 150 if q else 1000, seed), g_mask(prop, B1, 1), g_embed(prop, B3 if q else BX, 'embed'),
